@@ -25,6 +25,9 @@ type Prog struct {
 	Capture bool // compare standard output too
 	Extract bool // grok/add_pattern load-time scoping + extraction builtins in the reference
 	Polls   int  // poll cap of the real run (0 = realPollCap); longer loops need more
+	// SrcOverride gives the source text of scripts that cannot be printed from a tree
+	// (a script without statements is written as a comment, blank lines or a lone semicolon).
+	SrcOverride map[string]string
 }
 
 // PointSpec is an input point in harness terms (usable for both sides).
@@ -86,6 +89,9 @@ func (p *Prog) Sources() map[string]string {
 	out := map[string]string{}
 	for name, stmts := range p.Scripts {
 		src, _ := rt.PrintProg(stmts, nil)
+		if o, ok := p.SrcOverride[name]; ok && len(stmts) == 0 {
+			src = o
+		}
 		out[name] = src
 	}
 	return out
